@@ -20,6 +20,7 @@ import (
 
 type channel struct {
 	mu                    sync.RWMutex
+	mpdMu                 sync.Mutex // protects mpd (the document behind the pointer) and startTime
 	name                  string
 	dir                   string
 	authUser              string
@@ -126,6 +127,8 @@ func (ch *channel) addInitDataAndUpdateTimescale(stream stream, init *mp4.InitSe
 	if init == nil {
 		return fmt.Errorf("no moov box found in init segment")
 	}
+	ch.mpdMu.Lock()
+	defer ch.mpdMu.Unlock()
 	r := &trData{
 		name:        stream.trName,
 		contentType: stream.mediaType,
@@ -496,6 +499,8 @@ func extractTextData(stsd *mp4.StsdBox, rep *m.RepresentationType) error {
 }
 
 func (ch *channel) updateAndWriteMPD(log *slog.Logger) error {
+	ch.mpdMu.Lock()
+	defer ch.mpdMu.Unlock()
 	for _, asSet := range ch.mpd.Periods[0].AdaptationSets {
 		stl := asSet.SegmentTemplate
 		dur := uint64(ch.masterSegDuration) * uint64((*stl.Timescale)) / uint64(ch.masterTimescale)
@@ -515,6 +520,8 @@ func (ch *channel) updateAndWriteMPD(log *slog.Logger) error {
 // Only count unshifted or shifted segments, not both.
 func (ch *channel) deriveAndSetBitrates() {
 	trDatas, _ := ch.trDataSnapshot()
+	ch.mpdMu.Lock()
+	defer ch.mpdMu.Unlock()
 	for name, trd := range trDatas {
 		if trd.init.Moov.Trak.Mdia.Minf.Stbl.Stsd.GetBtrt() == nil {
 			// Estimate bitrate from the segments available
@@ -557,6 +564,8 @@ func (ch *channel) deriveAndSetBitrates() {
 
 func (ch *channel) deriveAndSetFrameRates(log *slog.Logger) {
 	trDatas, _ := ch.trDataSnapshot()
+	ch.mpdMu.Lock()
+	defer ch.mpdMu.Unlock()
 	for name, trd := range trDatas {
 		sdb := ch.segTimesGen.segDataBuffers[name]
 		if trd.contentType != "video" {
